@@ -352,3 +352,35 @@ def c16(tier, seed):
                            "keys_without_destructor", "units_named_ult", "units_unnamed_ult", "units_named_tasklet",
                            "units_unnamed_tasklet", "units_primary"]
     return c
+
+
+@prop("C17")
+def c17(tier, seed):
+    c = Check("C17", tier, seed)
+    q = tier == "quick"
+    c.rule = ("each case = one runtime lifetime: a sequential phase of random create / create_with_rank / set_rank / "
+              "join+revive cycles (optionally replacing the scheduler of the terminated stream) / set_main_sched[_basic] "
+              "from a ULT on its own stream (secondary and primary) / free over <=32 live streams with ranks up to 300, "
+              "checked op-by-op against a reference rank set (+ probe units reading self rank), then a concurrent phase "
+              "where 2-8 ULT/external workers create, re-rank and free their own streams at the same time; non-trivial = "
+              "the run exercised refused duplicates, gap reuse and head/middle/tail list insertions")
+    c.assumptions = ["in the concurrent phase a worker withdraws its record while set_rank/free is in flight, so two records "
+                     "holding the same rank at once prove a duplicate grant"]
+    env = {"ABT_MAX_NUM_XSTREAMS": "512"}
+    for i, s in enumerate(seeds(seed, 3 if q else 24)):
+        args = ["--seed", s, "--scenarios", 3 if q else 8, "--ops", 150 if q else 600, "--conc-ops", 60 if q else 250,
+                "--watchdog", 120 if q else 600]
+        if i % 3 == 2:
+            args += ["--squeeze", 4, "--delay", "uniform"]
+        c.add(Run("h_rank", "mon", args, env=env, weight=16, tag="mon%d" % i))
+    c.add(Run("h_rank", "asan", ["--seed", seed + 5, "--scenarios", 2, "--ops", 100, "--conc-ops", 40, "--watchdog", 120],
+              env=env, weight=16, tag="asan"))
+    c.add(Run("h_rank", "tsan", ["--seed", seed + 6, "--scenarios", 1, "--ops", 60, "--conc-ops", 30, "--watchdog", 120],
+              env=env, weight=16, tag="tsan"))
+    c.nontrivial = lambda r: True
+    c.required_points = ["RANK_INSERT_MIDDLE", "RANK_INSERT_TAIL", "RANK_GAP_REUSED"]
+    c.required_counters = ["create_smallest_unused", "create_with_rank_granted", "create_with_rank_refused_duplicate",
+                           "set_rank_granted", "set_rank_refused_duplicate", "frees", "join_revive_cycles",
+                           "set_main_sched_on_terminated_stream", "set_main_sched_on_own_stream", "concurrent_ops",
+                           "concurrent_refused_duplicate"]
+    return c
